@@ -482,7 +482,7 @@ func genC06(rng *rand.Rand, tier string) (cases []string) {
 	}
 
 	// random addresses: uniform, sparse, and sharing leading bytes with a listed network
-	n := 1200
+	n := 3000
 	if thorough {
 		n = 250000
 	}
@@ -523,8 +523,10 @@ func genC06(rng *rand.Rand, tier string) (cases []string) {
 	// exhaustive IPv4: the first octets that carry listed networks in the quick tier,
 	// all 2^32 addresses in the thorough tier
 	if thorough {
-		for lo := 0; lo < 256; lo += 16 {
-			cases = append(cases, fmt.Sprintf("C06.sweep4-exhaustive %03d %03d", lo, lo+15))
+		// two first octets (2^25 addresses) per case: a case stays far below the 60 s hang
+		// watchdog also when the machine is busy with other work
+		for lo := 0; lo < 256; lo += 2 {
+			cases = append(cases, fmt.Sprintf("C06.sweep4-exhaustive %03d %03d", lo, lo+1))
 		}
 	} else {
 		octets := map[byte]bool{}
